@@ -36,7 +36,7 @@ echo "$OUT" | grep -E "VIOLATION|SUMMARY|INCONCLUSIVE" | cut -c1-260 | head -6
 echo "check exit: $RC"
 DEST="/verif/seeded/$PROP-$K"
 mkdir -p "$DEST"
-cp "$SRC/patch.diff" "$DEST/"; for d in $DEMOS; do cp "$SRC/$d" "$DEST/"; done; [ -f "$SRC/README.md" ] && cp "$SRC/README.md" "$DEST/"
+[ -f "$DEST/patch.diff" ] || cp "$SRC/patch.diff" "$DEST/"; for d in $DEMOS; do cp "$SRC/$d" "$DEST/"; done; [ -f "$SRC/README.md" ] && cp "$SRC/README.md" "$DEST/"
 python3 - "$DEST" "$PROP" "$K" "$PKG" "$BASE" "$CLEAN" "$MUT" "${SUITE:-none}" "$RC" "$TIER" "$CHK" <<'PY'
 import json,sys,os,re
 dest,prop,k,pkg,base,clean,mut,suite,rc,tier,chk=sys.argv[1:]
